@@ -331,6 +331,24 @@ MUTATIONS = [
        "    shift = -search_pattern.positions[0]\n    replace_pattern.translate(shift)\n    search_pattern.translate(shift)\n"),
       ("            new_atoms.positions = (new_atoms.positions.dot(np.linalg.inv(cell)) % 1.0).dot(cell)",
        "            new_atoms.positions = (new_atoms.positions.dot(np.linalg.inv(cell)) % 1).dot(cell)")], "C05:5", "pass"),
+    ("unchanged (fifth batch, find_unchanged_atom_pairs)", "control", None, [], "C08:5", "all pass"),
+    ("find_unchanged_atom_pairs: < -> <=", "unsupported", "mofun/atoms.py",
+     [("if norm(np.array(p2) - p1) < max_delta and", "if norm(np.array(p2) - p1) <= max_delta and")], "C08:5", "Unsupported"),
+    ("find_unchanged_atom_pairs: break removed (every partner is appended)", "breaking", "mofun/atoms.py",
+     [("                match_pairs.append((i,j))\n                break\n", "                match_pairs.append((i,j))\n")], "C08:5", "fail"),
+    ("find_unchanged_atom_pairs: element test dropped", "breaking", "mofun/atoms.py",
+     [("if norm(np.array(p2) - p1) < max_delta and orig_structure.elements[i] == final_structure.elements[j]:", "if norm(np.array(p2) - p1) < max_delta:")], "C08:5", "fail"),
+    ("find_unchanged_atom_pairs: and -> or", "breaking", "mofun/atoms.py",
+     [("< max_delta and orig_structure.elements[i]", "< max_delta or orig_structure.elements[i]")], "C08:5", "fail"),
+    ("find_unchanged_atom_pairs: pairs appended as (j, i)", "breaking", "mofun/atoms.py",
+     [("match_pairs.append((i,j))", "match_pairs.append((j,i))")], "C08:5", "fail"),
+    ("find_unchanged_atom_pairs: twice the tolerance", "breaking", "mofun/atoms.py",
+     [("if norm(np.array(p2) - p1) < max_delta and", "if norm(np.array(p2) - p1) < 2 * max_delta and")], "C08:5", "fail"),
+    ("find_unchanged_atom_pairs: default max_delta 1e-5 -> 1e-4", "breaking", "mofun/atoms.py",
+     [("def find_unchanged_atom_pairs(orig_structure, final_structure, max_delta=1e-5):", "def find_unchanged_atom_pairs(orig_structure, final_structure, max_delta=1e-4):")], "C08:5", "fail"),
+    ("find_unchanged_atom_pairs: locals renamed, element test first, difference without np.array", "neutral", "mofun/atoms.py",
+     [("    for i, p1 in enumerate(orig_structure.positions):\n        for j, p2 in enumerate(final_structure.positions):\n            if norm(np.array(p2) - p1) < max_delta and orig_structure.elements[i] == final_structure.elements[j]:\n                match_pairs.append((i,j))\n",
+       "    for a, pa in enumerate(orig_structure.positions):\n        for b, pb in enumerate(final_structure.positions):\n            if final_structure.elements[b] == orig_structure.elements[a] and norm(pb - pa) < max_delta:\n                match_pairs.append((a,b))\n")], "C08:5", "pass"),
     # ---- leaving the subset
     ("max_bond_length: while loop added (outside the subset)", "unsupported", "mofun/detect_bonds.py",
      [('    """Return the maximum length of a bond between two elements"""\n', '    while False:\n        pass\n')], "C17", "Unsupported"),
